@@ -1015,9 +1015,9 @@ pub mod verif_hooks {
   impl VerifRealDriver {
     pub fn from_fds(keyboard: std::os::unix::io::RawFd, uinput: std::os::unix::io::RawFd, tablet: Option<std::os::unix::io::RawFd>) -> VerifRealDriver {
       let rw = RW {
-        r: DevInputReader { fd: keyboard },
+        r: DevInputReader::verif_from_fd(keyboard),
         w: DevInputWriter::verif_from_fd(uinput),
-        t: tablet.map(|fd| TabletModeSwitchReader { fd })
+        t: tablet.map(|fd| TabletModeSwitchReader::verif_from_fd(fd))
       };
       VerifRealDriver { inner: RealDriver { rw }, registry: None }
     }
